@@ -12,6 +12,8 @@ def make_cases(seed, n, nvalues, tag, **cfg):
     cases = []
     for k in range(n):
         prog, rng = gen.rand_case(seed, k, **cfg)
+        if k % 8 == 5:
+            prog = gen.wrap_diamond(prog, rng)       # three files: app imports main and the file main imports
         if k % 4 == 3:
             # c.struct_packing_alignment changes the struct layout, never the wire
             mainf = prog["files"][prog["main"]]
